@@ -572,11 +572,13 @@ type WriterPlan struct {
 }
 
 type faultWriter struct {
-	plan    WriterPlan
-	calls   int
-	got     []byte
-	firstN  int
-	errored bool
+	plan       WriterPlan
+	calls      int
+	got        []byte // bytes accepted
+	offered    []byte // bytes handed to Write, concatenated
+	firstN     int
+	errored    bool
+	afterError int // Write calls made after one had failed
 }
 
 var errInjected = errors.New("injected writer failure")
@@ -586,6 +588,10 @@ func (w *faultWriter) Write(p []byte) (int, error) {
 	if w.calls == 1 {
 		w.firstN = len(p)
 	}
+	if w.errored {
+		w.afterError++
+	}
+	w.offered = append(w.offered, p...)
 	switch w.plan.Kind {
 	case "error":
 		w.errored = true
@@ -634,19 +640,17 @@ func writerFindings(c *Cell, names []string, bad string, plan WriterPlan, ref []
 	case plan.Kind == "ok":
 		if err != nil {
 			add("library-unexpected-error", "", "%s: Mock(%v): %v", c, names, err)
-		} else if w.calls != 1 {
-			add("library-output-written-in-pieces", "", "%s: Mock(%v) called Write %d times; the complete file must be written once", c, names, w.calls)
 		} else if !bytes.Equal(w.got, ref) {
-			add("library-output-incomplete", "", "%s: Mock(%v) wrote %d bytes, reference %d", c, names, len(w.got), len(ref))
+			add("library-output-incomplete", "", "%s: Mock(%v) wrote %d bytes in %d Write call(s), the complete file has %d (written exactly once, it would be identical)", c, names, len(w.got), w.calls, len(ref))
 		}
 	default: // failing writer
 		if err == nil {
 			add("library-writer-error-ignored", "writer:"+plan.Kind, "%s: the writer failed (%s) but Mock(%v) returned nil", c, plan.Kind, names)
 		}
-		if w.calls != 1 {
-			add("library-output-written-in-pieces", "writer:"+plan.Kind, "%s: Mock(%v) called Write %d times on a failing writer", c, names, w.calls)
-		} else if w.firstN != len(ref) {
-			add("library-output-incomplete", "writer:"+plan.Kind, "%s: the single Write carried %d bytes, the complete file has %d", c, w.firstN, len(ref))
+		if w.afterError > 0 {
+			add("library-wrote-on-after-write-error", "writer:"+plan.Kind, "%s: Mock(%v) called Write %d more time(s) after the writer had failed", c, names, w.afterError)
+		} else if !bytes.HasPrefix(ref, w.offered) {
+			add("library-output-incomplete", "writer:"+plan.Kind, "%s: what Mock(%v) handed to the failing writer (%d bytes) is not a prefix of the complete file", c, names, len(w.offered))
 		}
 	}
 	return fs, tr
